@@ -613,3 +613,41 @@ _add("C20", "compatible retypings are reported (compatibleRetypeSeverity re-extr
             "schemas against the schema built from their own SDL; defaults enter the model as GraphQL values of their position (gql_canon_default, independent "
             "of the library's printer).",
      "Known findings G1, G4 (pinned). Repaired: G2, G3, G5, Python-equal defaults, subclass kinds, hash-dependent order, defaults as GraphQL values.")
+
+
+# ---------------------------------------------------------------------------------------------------------------
+# C14 — state after the heap builder waves (replaces the layered texts above; obligation names are appended by manifest_gen.py).
+# ---------------------------------------------------------------------------------------------------------------
+CHECKS["C14"].update({
+    "text": ("Object-heap model (lean/PyGqlModel/Heap.lean, HeapExt.lean, Registry.lean: objects with identities, attribute writes, copy.copy as a new identity; "
+             "Schema.clone, _replace_types_and_directives incl. busted_cache, _HealSchemaVisitor / fix_type_references, SchemaVisitor.on_*, "
+             "VisibilitySchemaTransform, CamelCaseSchemaTransform, a drop/wrap schema-directive visitor, transform_schema, extend_schema with the attribute "
+             "copying of ASTTypeBuilder._extend_*, the resolver registries as heap objects) whose code-variant flags (Cfg) are RE-EXTRACTED from schema.py / "
+             "ast_type_builder.py / schema_from_ast.py on every run. Headline theorems, all FULL for the variant in /repo (each with a machine-checked "
+             "refutation for the variant before the repair): CLOSED - heal_closed, clone_closed, transform_closed (+ _total), extend_closed / extend_closed_wf "
+             "(every document that only uses defined names: ExtOK; refuted for the un-extended input-field variant, C11-S1); FRAME - clone_frames_source "
+             "(clone and every clone-based transform write no object of a closed source), transform_owns_result + inplace_on_result_frames_source (in-place "
+             "visitors on a result never reach back), extend_frames_source, clone_frames_source_registries / clone_keeps_source_digest; SEQUENCES - "
+             "transform_sequence_frames_source, transform_sequence_untouched_preserved, run_ops_untouched_preserved (transforms and extensions mixed), "
+             "transform_chain_untouched_preserved (each transform applied to the previous result, TRel.comp), history_closed_framed (ANY tree of clone / "
+             "transform / extend derivations on one heap keeps every schema closed, well-formed and unwritten), with totality (runAll_total, runOps_total, "
+             "chain_total); PRESERVED - transform_preserves_untouched (type level, every visitor), transform_preserves_untouched_members (fields, arguments, "
+             "input fields: in order, copies of a sub-list of the source's with every untouched attribute; hypothesis NoWrap), untouched_preserved_extend "
+             "(+ _protected, _directives, _schema_level), extend_keeps_leaf_class, clone_intact / transform_intact, visibility_hides_type(_transform); "
+             "REFINEMENT - clone_is_copy_then_exact_heal, clone_refines (the by-name dump of every type of a clone equals the source's for every "
+             "interpretation of resolver ids / defaults), clone_refines_directives, clone_types_perm / clone_types_order (dict order of the clone = order of "
+             "Schema.__init__'s type map; 'same order as the source' refuted, not part of the property), clone_registries_total. The ten `_partial` "
+             "theorems are subsumed by these and kept for name stability. Tied by correspondence of the live object graph (identities canonicalised by "
+             "traversal order, registries and dict orders included) over random clone / transform / extend / in-place / register sequences applied to the "
+             "source or to earlier results, by-name dump(clone(s)) == dump(s), and direct oracles on the real code: closedness by identity, frame condition "
+             "on the source, preserved attributes, hidden elements unreachable through real introspection and queries, resolvers still executed under the "
+             "new names, source still usable; named deterministic probes (python names through camel-case, visibility allow-lists, stale caches); oracle cases of the bug-hunt rounds (class tags of leaf "
+             "types through extension, type resolvers returning objects of the source schema, schema directives applied by extensions only to what the "
+             "extension wrote, inline directive definitions registered, defaults re-evaluated after extensions)."),
+    "note": ("Trusted: Lean kernel; Cfg flag extraction (ast / regex); generators; snakecase_to_camelcase enters as a table computed by the real function "
+             "(theorems hold for every renaming). Only exercised by the oracle, not modelled: validate(), Schema.implementations / _possible_types (derived "
+             "indexes), merge_resolvers' assignment onto fields, default values (opaque strings in the model), enum value objects. Residual hypotheses: "
+             "NoWrap in the member-level preservation theorems (the drop/wrap directive visitor replaces resolvers by design). Known findings T13, T14, "
+             "T15-residue, T19 (see known_findings.json). Repaired on the way: S2, T1-T12, T15-T18, U1."),
+    "technique": "Lean 4 proof over an object-heap model (closedness, frame, ownership, preservation, refinement; induction over derivation histories) + live object-graph correspondence and identity oracles",
+})
